@@ -50,7 +50,7 @@ BOUNDED = {
         unit=P + "properties:_create_schemas / _process_models (fixpoints)", where="openapi_python_client/parser/properties/__init__.py",
         statement="for a valid document the generated classes and their properties do not depend on the order of "
                   "components.schemas (parents after children, forward references, single-reference wrappers)",
-        bound="three families of 4 schemas (allOf parents, single-reference wrappers, references nested in unions / arrays), all 24 orders each"),
+        bound="four families of 4 schemas (allOf parents, single-reference wrappers, references nested in unions / arrays, class names that differ only in case -- this one compared byte for byte), all 24 orders each"),
     "reference_strings": dict(
         unit=P + "properties.schemas:parse_reference_path", where="openapi_python_client/parser/properties/schemas.py",
         statement="a reference string is accepted only if it is empty or '#' + fragment; the urlparse fact assumed by the deductive "
